@@ -64,6 +64,8 @@ func C01(c *core.Ctx) {
 		pub("B", "a", 1, 33, p8k), pub("A", "a/b", 1, 17, ""), {Kind: "pub2", Client: "B", Topic: "b/c", QoS: 2, ID: 34, Payload: "nobody"},
 		unsub("A", 14, "a/+"), sub("A", 11, "a/+", 2), unsub("B", 23, "a/b"), {Kind: "cut", Client: "A"},
 		{Kind: "lpub", Topic: "a/b", QoS: 1, Payload: "lp"}, {Kind: "lunsub", Client: "L", Filters: []string{"a/#"}},
+		// one UNSUBSCRIBE with several filters, held ones last
+		{Kind: "unsub", Client: "A", ID: 19, Filters: []string{"q/1", "q/2", "q/3", "a/+", "#"}},
 	}
 	sd := 3
 	if c.Thorough() {
